@@ -32,6 +32,7 @@ ASSUMPTIONS = [
 ]
 ANCHOR_FILES = ("src/pydrobert/speech/post.py",)
 EXHAUSTIVE_PARTS = []
+SUITE_TESTS = ['tests/test_post.py', 'tests/test_command_line.py']  # the repository's own tests as an extra monitored workload (thorough tier)
 LEVEL_TEXT = (
     "Every accumulate/apply call of hundreds (quick) to thousands (thorough) of seeded multi-instance histories is shadowed by an independent "
     "accumulator and every apply result compared with the exact transform of the accumulated multiset; additivity is checked by giving the same data "
@@ -425,6 +426,10 @@ def plan(tier, seed):
 
 
 def run_shard(spec, rec):
+    if "suite" in spec:
+        from .. import suite
+
+        return suite.run(__name__.rsplit(".", 1)[-1], spec, rec)
     mon = Mon(rec)
     mon.attach()
     for i in range(spec["a"], spec["b"]):
